@@ -5,3 +5,8 @@ namespace MidnightZK.C08.Driver
 def answer (_line : String) : String := "unimplemented"
 
 end MidnightZK.C08.Driver
+
+/-- `mzk-c08 < ops.txt > model.txt` : one answer line per request line. -/
+def main : IO UInt32 := do
+  MidnightZK.lineLoop (← IO.getStdin) (← IO.getStdout) MidnightZK.C08.Driver.answer
+  return 0
